@@ -30,7 +30,7 @@ CHECKS = {
     ),
     "C05": dict(
         level="exploration",
-        text="Poly1305 under every delivery: the message reaches the object as any sequence of input fragments (staging-buffer paths: partial+partial, partial completed exactly, partial then many blocks), with forks mid-message and result/raw_result into dirty oversized buffers; tags are compared with an independent big-integer model of RFC 8439 §2.5. Key classes (random, all-ones, r in {0,1,2}, unclamped r) and message classes (every length 0..=80 enumerated in 4 split styles, all-0xff and RFC 8439 A.3 wrap-around blocks) are part of the generator; the 'accumulator has a second representative above p' probe must fire. The scenario runs in the default build and in the force-32bits build, each judged against the same model. 2M+0.5M runs quick, 150M+20M thorough.",
+        text="Poly1305 under every delivery: the message reaches the object as any sequence of input fragments (staging-buffer paths: partial+partial, partial completed exactly, partial then many blocks), with forks mid-message and result/raw_result into dirty oversized buffers; tags are compared with an independent big-integer model of RFC 8439 §2.5. Key classes (random, all-ones, r in {0,1,2}, unclamped r) and message classes (every length 0..=80 enumerated in 4 split styles, all-0xff and RFC 8439 A.3 wrap-around blocks) are part of the generator; blocks SOLVED at execution time (modular inverse of r in the model) so that the accumulator takes a chosen extreme value right after them - p-1-d, 0..7, 2^128+-d, 2^129+-d, 2^130-6-d, saturated 26/32/44-bit limb patterns, powers of two - optionally followed by 0xff blocks in the same call) are part of the generator; the 'accumulator has a second representative above p' probe must fire. The scenario runs in the default build and in the force-32bits build, each judged against the same model. 2M+0.5M runs quick, 150M+20M thorough.",
         ref="DESIGN.md §4.4",
         note="Trusted: the harness's 320-bit integer Poly1305 model (unit-tested against RFC 8439 §2.5.2 and A.3 #5). Key/message classes are input sampling; the simulator adds the delivery dimension and the fork.",
         technique=TECH + "; oracle = independent big-integer Poly1305",
